@@ -363,6 +363,21 @@ def gen_build(g, k):
     for _ in range(120 * k):                              # random call lists, any arguments
         ids = [r.randint(1, 22) for _ in range(r.randint(1, 8))]
         c.append("build %s" % lst(g.call(i) for i in ids))
+    # the very same call repeated (identical tags next to each other, apart, in runs), sizes that are and are not multiples of 8
+    for i in (3, 13, 22):
+        for n_pay in (0, 3, 8, 13, 16):
+            if i == 3:
+                a = lst([3, 4096, 8192, hx(b"m" * n_pay)])
+            elif i == 13:
+                a = lst([13, 3, 1, hx(bytes(range(1, n_pay + 1)))])
+            else:
+                a = lst([22, 0x1337, hx(bytes(range(1, n_pay + 1)))])
+            other = g.call(i, ok=True)
+            for pat in ([a, a], [a, a, a], [a, other, a], [a, a, other, other], [other, a, a, other, a]):
+                c.append("build %s" % lst(pat))
+    for i in (1, 2, 4, 16):                               # single-valued kinds: the same call twice is one tag
+        a = g.call(i, ok=True)
+        c.append("build %s" % lst([a, a]))
     for pos in (0, 1, 2):                                 # a panicking call at every position
         good = [g.call(i, ok=True) for i in (1, 4)]
         for bad in (lst([3, 5, 5, hx(b"m")]), lst([3, 6, 5, hx(b"m")]), lst([17, 0, 1, hx(bytes(40))]),
